@@ -20,7 +20,7 @@ def _compile(k):
     for lhs, rhs in k.assignments:
         accs = sorted(rhs.atoms(Access), key=lambda a: (a.field.name, tuple(int(o) for o in a.offsets)))
         dummies = [sp.Dummy() for _ in accs]
-        f = sp.lambdify(dummies + list(k.scalars), rhs.xreplace(dict(zip(accs, dummies))), modules="math")
+        f = shim.lambdify_exact(dummies + list(k.scalars), rhs.xreplace(dict(zip(accs, dummies))), modules="math")
         fns.append((lhs.field.name, [(a.field.name, tuple(int(o) for o in a.offsets)) for a in accs], f))
     return fns
 
